@@ -1,49 +1,43 @@
 (* C20OwnGeneral.v — for EVERY world, request, store: the first request of an authorization (init_auth) writes no
-   scalar member of a stored session outside a lock (Model/AccessOwn.v trace_own with the copy of the pushed
-   session), provided the id it would give a new session is not yet in the store (ids are fresh: Fresh.v). *)
+   member of a stored / shared session outside a lock (Model/AccessOwn.v trace_own with the DEEP copy of the pushed
+   session: the tree with fix e2b7ce4), provided the id it would give a new session is not yet in the store (ids are
+   fresh: Fresh.v); with a shallow copy (the code before the fix) the same holds of the scalar members only. *)
 From Verif Require Import Base Scope Types Prog Pop Token Authorize Access AccessOwn.
 Require Import Lia.
 Local Open Scope N_scope.
 Local Open Scope string_scope.
 
-Definition quiet (l : list access) : Prop := scalar_session_writes l = [].
+(* flt selects the members of interest: every member, or the scalar ones *)
+Definition qf (flt : string -> bool) (l : list access) : Prop := filter (fun x => flt (snd x)) (session_writes l) = [].
+Definition scalar_member (f : string) : bool := negb (is_map_member f).
+Definition any_member (f : string) : bool := true.
 
 Lemma session_writes_app a b : session_writes (a ++ b) = (session_writes a ++ session_writes b)%list.
 Proof. unfold session_writes. apply flat_map_app. Qed.
-Lemma quiet_app a b : quiet a -> quiet b -> quiet (a ++ b).
-Proof.
-  unfold quiet, scalar_session_writes. intros Ha Hb. rewrite session_writes_app, filter_app, Ha, Hb. reflexivity.
-Qed.
-Lemma quiet_nil : quiet []. Proof. reflexivity. Qed.
 
 (* an access that is not an unsynchronised write to a session member contributes nothing *)
-Definition harmless (a : access) : bool :=
+Definition nowrite (a : access) : bool :=
   match ac_loc a with
-  | LField KSession _ f => orb (negb (unsync_write a)) (is_map_member f)
+  | LField KSession _ _ => negb (unsync_write a)
   | _ => true
   end.
-Lemma quiet_of_harmless l : forallb harmless l = true -> quiet l.
+Lemma no_session_writes l : forallb nowrite l = true -> session_writes l = [].
 Proof.
-  unfold quiet, scalar_session_writes, session_writes. induction l as [|a l IH]; cbn [forallb flat_map]; [reflexivity|].
-  intros H. apply andb_true_iff in H as [Ha Hl]. rewrite filter_app, (IH Hl), app_nil_r.
-  unfold harmless in Ha. destruct (ac_loc a) as [|k i f]; [reflexivity|]. destruct k; try reflexivity.
-  destruct (unsync_write a); [|reflexivity]. cbn in Ha. cbn. rewrite Ha. reflexivity.
+  unfold session_writes. induction l as [|a l IH]; cbn [forallb flat_map]; [reflexivity|].
+  intros H. apply andb_true_iff in H as [Ha Hl]. rewrite (IH Hl), app_nil_r.
+  unfold nowrite in Ha. destruct (ac_loc a) as [|k i f]; [reflexivity|]. destruct k; try reflexivity.
+  destruct (unsync_write a); [discriminate|reflexivity].
 Qed.
-
-Lemma scanA_harmless m f l : forallb harmless (scanA m f l) = true.
+Lemma scanA_nowrite m f l : forallb nowrite (scanA m f l) = true.
 Proof. unfold scanA. cbn. apply forallb_forall. intros a H. apply in_map_iff in H as [s [<- _]]. reflexivity. Qed.
-Lemma scanG_harmless m f l : forallb harmless (scanG m f l) = true.
+Lemma scanG_nowrite m f l : forallb nowrite (scanG m f l) = true.
 Proof. unfold scanG. cbn. apply forallb_forall. intros a H. apply in_map_iff in H as [s [<- _]]. reflexivity. Qed.
-Lemma call_quiet has c s : quiet (call_accesses has c s).
+Lemma call_no_session_writes has c s : session_writes (call_accesses has c s) = [].
 Proof.
-  apply quiet_of_harmless. destruct c; unfold call_accesses; try reflexivity; try apply scanA_harmless; try apply scanG_harmless.
+  apply no_session_writes. destruct c; unfold call_accesses; try reflexivity; try apply scanA_nowrite; try apply scanG_nowrite.
   - cbn. destruct (find_client i (st_clients s)); [|reflexivity]. cbn. destruct (has i); reflexivity.
-  - rewrite forallb_app, scanG_harmless. reflexivity.
+  - rewrite forallb_app, scanG_nowrite. reflexivity.
 Qed.
-Lemma wr_maps_quiet i f site b : is_map_member f = true -> quiet (wr KSession i f site b).
-Proof. intros M. apply quiet_of_harmless. unfold wr. destruct b; [|reflexivity]. cbn. unfold harmless. cbn. rewrite M. reflexivity. Qed.
-Lemma touch_a_maps_quiet x y : quiet (touch_a_maps x y).
-Proof. unfold touch_a_maps. apply quiet_app; apply wr_maps_quiet; reflexivity. Qed.
 
 (* ---- programs that touch only the session with id i, and not after having saved it ---- *)
 Definition saves (i : id) (c : call) : bool := match c with ASave x => ideq (a_id x) i | _ => false end.
@@ -95,8 +89,29 @@ Proof.
   - (* GDelByCode *) destruct (find _ _); cbn; exact H.
 Qed.
 
+Section Filter.
+(* deep: the handler clones the maps of the session it copies; flt: the members looked at.  Either the copy is deep, or
+   only scalar members are looked at *)
+Variable deep : bool.
+Variable flt : string -> bool.
+Hypothesis deep_or_scalar : deep = true \/ (forall f, is_map_member f = true -> flt f = false).
+Notation quiet := (qf flt).
+
+Lemma quiet_app a b : quiet a -> quiet b -> quiet (a ++ b).
+Proof. unfold qf. intros Ha Hb. rewrite session_writes_app, filter_app, Ha, Hb. reflexivity. Qed.
+Lemma quiet_nil : quiet []. Proof. reflexivity. Qed.
+Lemma call_quiet has c s : quiet (call_accesses has c s).
+Proof. unfold qf. rewrite call_no_session_writes. reflexivity. Qed.
+Lemma wr_maps_quiet i f site b : is_map_member f = true -> flt f = false -> quiet (wr KSession i f site b).
+Proof. intros M F. unfold qf, wr. destruct b; [|reflexivity]. cbn. rewrite F. reflexivity. Qed.
+Lemma touch_private_quiet x y : quiet (if deep then [] else touch_a_maps x y).
+Proof.
+  destruct deep_or_scalar as [->|H]; [apply quiet_nil|]. destruct deep; [apply quiet_nil|].
+  unfold touch_a_maps. apply quiet_app; apply wr_maps_quiet; try reflexivity; apply H; reflexivity.
+Qed.
+
 Lemma calm_quiet has {A} i b (p : prog A) : calm i b p ->
-  forall priv st, (b = true -> own i priv st) -> quiet (trace_own has par_copied priv p st).
+  forall priv st, (b = true -> own i priv st) -> quiet (trace_own has deep par_copied priv p st).
 Proof.
   induction 1 as [b a|b c k Hc Hk IH|x p Hx Hp IH]; intros priv st O.
   - apply quiet_nil.
@@ -110,7 +125,7 @@ Proof.
     + left. rewrite holds_drop_other; assumption.
     + right. split; [rewrite holds_drop_other; assumption|rewrite Est; apply exec_not_stored; assumption].
   - cbn [trace_own]. specialize (O eq_refl). subst i. destruct O as [O|[O1 O2]].
-    + destruct (holds_find _ _ O) as [y Hy]. rewrite Hy. apply quiet_app; [apply touch_a_maps_quiet|].
+    + destruct (holds_find _ _ O) as [y Hy]. rewrite Hy. apply quiet_app; [apply touch_private_quiet|].
       apply IH. intros _. left. unfold holds. cbn. unfold ideq. rewrite N.eqb_refl. reflexivity.
     + rewrite (not_holds_find _ _ O1).
       assert (F : find (fun y => ideq (a_id y) (a_id x)) (st_asess st) = None).
@@ -184,8 +199,8 @@ Proof.
 Qed.
 
 Lemma quiet_get_client has priv w cid {A} (k : option client -> prog A) st :
-  (forall oc, quiet (trace_own has par_copied priv (k oc) st)) ->
-  quiet (trace_own has par_copied priv (bind (get_client w cid) k) st).
+  (forall oc, quiet (trace_own has deep par_copied priv (k oc) st)) ->
+  quiet (trace_own has deep par_copied priv (bind (get_client w cid) k) st).
 Proof.
   intros H. unfold get_client. destruct (find_client cid (w_static w)); cbn [bind]; [apply H|].
   cbn [trace_own exec]. apply quiet_app; [apply call_quiet|].
@@ -193,18 +208,18 @@ Proof.
 Qed.
 
 (* the first request of an authorization writes no scalar member of a stored session outside a lock *)
-Theorem first_request_scalars_private_lemma has w n now r st :
+Lemma first_request_quiet has w n now r st :
   stored (mint n KSessId) st = false ->
-  scalar_session_writes (trace_own has par_copied [] (init_auth w n now r) st) = [].
+  quiet (trace_own has deep par_copied [] (init_auth w n now r) st).
 Proof.
-  intros Fresh. change (quiet (trace_own has par_copied [] (init_auth w n now r) st)).
+  intros Fresh.
   unfold init_auth. cbv zeta.
   destruct (is_nil (ar_client r)); [apply quiet_nil|].
   apply quiet_get_client. intros [c|]; [|apply quiet_nil].
-  match goal with |- quiet (trace_own _ _ _ (if ?x then _ else _) _) => destruct x end; [apply quiet_nil|].
-  match goal with |- quiet (trace_own _ _ _ (if ?x then _ else _) _) => destruct x end.
+  match goal with |- quiet (trace_own _ _ _ _ (if ?x then _ else _) _) => destruct x end; [apply quiet_nil|].
+  match goal with |- quiet (trace_own _ _ _ _ (if ?x then _ else _) _) => destruct x end.
   - (* through PAR *)
-    match goal with |- quiet (trace_own _ _ _ (if ?x then _ else _) _) => destruct x end; [apply quiet_nil|].
+    match goal with |- quiet (trace_own _ _ _ _ (if ?x then _ else _) _) => destruct x end; [apply quiet_nil|].
     cbn [trace_own exec]. apply quiet_app; [apply call_quiet|].
     destruct (find (fun s => ideq (a_par s) (p_request_uri (ar_params r))) (st_asess st)) as [s|]; cbn [reply_a par_copied]; [|apply quiet_nil].
     match goal with |- context [match ?v with Some _ => _ | None => _ end] => destruct v end.
@@ -219,6 +234,26 @@ Proof.
     + apply calm_bind_ret.
       match goal with |- calm _ _ (start_session ?w ?n ?now ?c ?s' ?r) => exact (calm_start_session w n now c s' r) end.
     + intros _. right. split; [reflexivity|exact Fresh].
+Qed.
+
+End Filter.
+
+(* the tree with fix e2b7ce4 (deep copy): no member at all *)
+Theorem first_request_writes_nothing_lemma has w n now r st :
+  stored (mint n KSessId) st = false ->
+  session_writes (trace_own has true par_copied [] (init_auth w n now r) st) = [].
+Proof.
+  intros Fresh. pose proof (first_request_quiet true any_member (or_introl eq_refl) has w n now r st Fresh) as H.
+  unfold qf in H. rewrite <- H. clear H.
+  induction (session_writes _) as [|x l IH]; cbn; [reflexivity|]. f_equal. exact IH.
+Qed.
+(* whatever the copy does with the maps: no scalar member *)
+Theorem first_request_scalars_private_lemma has deep w n now r st :
+  stored (mint n KSessId) st = false ->
+  scalar_session_writes (trace_own has deep par_copied [] (init_auth w n now r) st) = [].
+Proof.
+  intros Fresh. refine (first_request_quiet deep scalar_member _ has w n now r st Fresh).
+  right. intros f M. unfold scalar_member. rewrite M. reflexivity.
 Qed.
 
 Lemma not_stored_of_fresh i st : (forall x, In x (st_asess st) -> a_id x <> i) -> stored i st = false.
